@@ -43,7 +43,7 @@ pub fn random_script(rng: &mut StdRng, starts: &mut gen::Starts, in_process: boo
         // run-time decisions: continue the game along the engine's own prediction, or re-send the game
         // with one earlier move changed (same length, same last move); sometimes a late stop
         let kind = rng.gen_range(0..100);
-        cycles.push(Cycle { new_game: rng.gen_bool(0.15), position, go, stop_after_us: stop, extra: vec![], during: random_during(rng), follow_ponder: i > 0 && kind < 20, sibling: i > 0 && (20..30).contains(&kind), late_stop: rng.gen_bool(0.15) });
+        cycles.push(Cycle { new_game: rng.gen_bool(0.15), position, go: go.clone(), stop_after_us: stop, extra: vec![], during: during_for(&go, rng), follow_ponder: i > 0 && kind < 20, sibling: i > 0 && (20..30).contains(&kind), late_stop: rng.gen_bool(0.15) });
         roots.push(root);
     }
     // Poll intervals below the node count of a depth-1 iteration (at most 219 negamax nodes) would let a
@@ -230,11 +230,12 @@ pub fn replay(case: &monlib::Value, rep: &mut Report) {
                 "winc" => { g.winc = toks[i + 1].parse().ok(); i += 2; }
                 "binc" => { g.binc = toks[i + 1].parse().ok(); i += 2; }
                 "infinite" => { g.infinite = true; i += 1; }
+                "ponder" => { g.ponder = true; i += 1; }
                 "searchmoves" => { i += 1; while i < toks.len() && refchess::Mv::from_uci(toks[i]).is_some() { g.searchmoves.push(toks[i].to_string()); i += 1; } }
                 _ => i += 1,
             }
         }
-        cycles.push(Cycle { new_game: c["ucinewgame"].as_bool().unwrap_or(false), position, go: g, stop_after_us: c["stop_after_us"].as_u64(), extra: vec![], during: c["during"].as_array().map(|a| a.iter().filter_map(|t| match t.as_str() { Some("ucinewgame") => Some(Gui::NewGame), Some("isready") => Some(Gui::IsReady), Some("uci") => Some(Gui::Uci), Some("debug on") => Some(Gui::Debug(true)), Some("debug off") => Some(Gui::Debug(false)), _ => None }).collect()).unwrap_or_default(), follow_ponder: c["follow_ponder"].as_bool().unwrap_or(false), sibling: c["sibling"].as_bool().unwrap_or(false), late_stop: c["late_stop"].as_bool().unwrap_or(false) });
+        cycles.push(Cycle { new_game: c["ucinewgame"].as_bool().unwrap_or(false), position, go: g, stop_after_us: c["stop_after_us"].as_u64(), extra: vec![], during: c["during"].as_array().map(|a| a.iter().filter_map(|t| match t.as_str() { Some("ucinewgame") => Some(Gui::NewGame), Some("isready") => Some(Gui::IsReady), Some("uci") => Some(Gui::Uci), Some("debug on") => Some(Gui::Debug(true)), Some("debug off") => Some(Gui::Debug(false)), Some("ponderhit") => Some(Gui::PonderHit), _ => None }).collect()).unwrap_or_default(), follow_ponder: c["follow_ponder"].as_bool().unwrap_or(false), sibling: c["sibling"].as_bool().unwrap_or(false), late_stop: c["late_stop"].as_bool().unwrap_or(false) });
         roots.push(cur.clone().expect("first cycle has a position"));
     }
     let script = Script { cycles, poll_interval: sc["poll_interval"].as_u64().unwrap_or(0) };
